@@ -234,6 +234,16 @@ def main(run: Run):
     patterns_l1.add_to(run)
     from . import validation
     validation.add_to(run, ["wb_csr_bridge_ctor", "memory_map_setters"])
+    from ..pyvc.driver import discharge_all as _da
+    from ..pyvc.engine import Unsupported as _Uns
+    try:
+        from contracts import glue_l1
+        fvb = glue_l1.verify_csr_bridge_elaborate()
+        run.functions["amaranth_soc.csr.reg.Bridge.elaborate [statements issued, any register set]"] = f"proved ({fvb.paths} paths, {len(fvb.obs)} obligations)"
+        run.require("csr.reg.Bridge.elaborate::each-register-becomes-a-submodule-exactly-once", "csr.reg.Bridge.elaborate::bus-connected-to-the-multiplexer")
+        _da(run, fvb.obs, timeout_ms=10000)
+    except _Uns as e:
+        run.bounded_notes.append(f"csr.Bridge.elaborate: outside the pyvc subset on this tree ({e}); the per-hierarchy clauses decide")
     return run.finish(
         explanation="End-to-end composition on generated hierarchies: the flattened real design is checked at the root bus against the "
                     "addresses root.memory_map.all_resources() reports (CSR-rooted: generic CSR-target contract with a symbolic root "
